@@ -18,8 +18,26 @@ def run(tier, v, wd, replay=None):
     # a second sample with 40 never-matching domain rules in front: the program's own domain sets land in the second 32-rule word
     env2 = dict(env, VERIF_RS_SHIFT="40", VERIF_RS_EVERY=str(int(env["VERIF_RS_EVERY"]) * 3), VERIF_RS_ONLY="domain")
     run_vectors(v, wd, repo, "./control/", "TestVerifRuleScanKern", vec, env=env2, tags="verif", timeout=3000, outname="out-shift.json")
+    # install orders: plain start, staged reload, roll-back after a failed hand-over, the ring of trie slots (RingInstall.tla)
+    r = vlib.tlc(wd, "RingInstall", "RingInstall_mc.cfg", timeout=1500)
+    v.add_tlc(r)
+    if r.violated:
+        raise vlib.Infra("RingInstall.tla violates %s in the model" % r.violated)
+    r = vlib.tlc(wd, "RingInstall", "RingInstall_release.cfg", timeout=600, workers=1)
+    if r.violated != "RingRight":
+        raise vlib.Infra("RingInstall.tla with a builder that drops its prefix lists no longer violates RingRight: vacuous model")
+    r = vlib.tlc(wd, "RingInstall", "RingInstall_window.cfg", timeout=600, workers=1)
+    if r.violated != "LiveRight":
+        raise vlib.Infra("RingInstall.tla: two generations that do not fit in the ring together no longer open the overlap window: the model does not describe the ring")
+    ifile = vec + ".install"
+    r = vlib.tlc(wd, "RingInstall", "RingInstall_gen.cfg" if tier == "quick" else "RingInstall_gen3.cfg", emit_to=ifile, timeout=1500)
+    v.add_tlc(r)
+    if r.violated:
+        raise vlib.Infra("RingInstall.tla violates %s in the model (gen)" % r.violated)
+    run_vectors(v, wd, repo, "./control/", "TestVerifC02Install", ifile, tags="verif", timeout=3000, outname="out-install.json")
     v.coverage["explanation"] = ("TLC checks KScan (the route() automaton incl. DNS_QUERY hand-over) against the first-match semantics in every state; "
                                  "a seed-independent 1/%s sample of the generated programs is compiled by the production pipeline, installed into real kernel maps by "
                                  "BuildKernspace (LPM ring, routing_map, routing_meta_map) and every LAN packet is run through the real tproxy_lan_ingress_l2 "
                                  "program (BPF_PROG_TEST_RUN, both parser paths); the decision is read back with the production RetrieveRoutingResult" % env["VERIF_RS_EVERY"])
-    v.assumptions += ["BPF syscall available (otherwise exit 2)", "LAN side only in this run: process-name packets are exercised by the WAN run of the shimmed object"]
+    v.assumptions += ["install orders: every history of 8 build / install steps over two generations (thorough: 9 steps, three generations) of programs with 0-2 (0-3) prefix sets, on one set of kernel maps, the ring cursor carried over from history to history; after every installation the kernel's decision for probes inside and outside every generation's prefixes is compared with the installed generation's own userspace matcher; the window between writing the tries and writing the rules is in the model only",
+                      "BPF syscall available (otherwise exit 2)", "LAN side only in this run: process-name packets are exercised by the WAN run of the shimmed object"]
